@@ -458,6 +458,11 @@ impl Property for C19 {
                 ctx.label("rawish_element_name");
             }
         }
+        // (late draw) a foreign namespace URI that needs escaping where it is written as an attribute value
+        if src.ratio(1, 5) && uses(&doc, "urn:f") {
+            replace_uri(&mut doc, "urn:f", "urn:f?a=1&b=\"2\"");
+            ctx.label("namespace_uri_needing_escapes");
+        }
         let mut hs = vec![];
         let root = match bridge::build(&mut xot, &doc, &mut hs) {
             Ok(r) => r,
